@@ -13,6 +13,7 @@ import Zrnt.Beacon.CtxDriver
 import Zrnt.Gossip.Driver
 import Zrnt.SSZ.Driver
 import Zrnt.Shuffle.Driver
+import Zrnt.Beacon.CommitteesDriver
 import Zrnt.ForkChoice.Driver
 /-! Registry of `zmodel` modes. One line per component: `import` above, entry in `modes` below. -/
 namespace Zrnt.Driver
@@ -32,7 +33,8 @@ def modes : List Mode := [
   Zrnt.Gossip.Driver.c12Mode,
   Zrnt.SSZ.Driver.sszMode,
   Zrnt.SSZ.Driver.sszStateMode,
-  Zrnt.Shuffle.shuffleMode
+  Zrnt.Shuffle.shuffleMode,
+  Zrnt.Beacon.Committees.committeesMode
 ]
 
 def run (args : List String) : IO UInt32 := do
